@@ -309,7 +309,7 @@ class Mon:
         self.h.append({"fam": fam, "conn": conn, "mmsg": mmsg, "seq": 0, "sub": {}, "owed": {}, "cbst": {},
                        "wire": [], "must": set(), "never": set(), "closing": False, "errs": set(), "scripts": {},
                        "ncb": {"send": 0, "recv": 0}, "pending": [], "empties_wire": 0,
-                       "nalloc": 0, "pm": ("idle",), "rin": [], "rpos": 0, "payload_off": False,
+                       "oserr": [], "nalloc": 0, "pm": ("idle",), "rin": [], "rpos": 0, "payload_off": False,
                        "cur_chunk": False})
 
     def op_result(self, i, tok, line):
@@ -427,8 +427,6 @@ class Mon:
                     self.stats["ecanceled"] += 1
                     if not h["closing"]:
                         self.bad("send-cb-status", f"h{i} r{seq} UV_ECANCELED on a handle that was not closed")
-                elif -st not in h["errs"]:
-                    self.bad("send-cb-status", f"h{i} r{seq} status {st} is not an error the OS returned ({sorted(h['errs'])})")
                 else:
                     self.stats["err_status"] += 1
             h["pending"] = list(h["scripts"].get(("send", h["ncb"]["send"]), []))
@@ -494,6 +492,8 @@ class Mon:
             if h["owed"]:
                 self.bad("close-with-owed", f"h{i} close_cb with requests still owed a callback: {sorted(h['owed'])}")
             h["closed"] = True
+        elif w[0] == "oserr":
+            h["oserr"].append((w[1][1:], int(w[2])))
         elif w[0] == "spun":
             self.bad("recvmsg-spin", f"h{i} more than 3000 callbacks in one loop iteration (uv__udp_recvmsg does not terminate)")
         else:
@@ -509,6 +509,11 @@ class Mon:
                               + (" after uv_udp_recv_stop inside a UV_UDP_MMSG_CHUNK callback" if self.stop_in_chunk else ""))
                 h["pm"] = ("idle",)
             wired = set(h["wire"])
+            for q, st in h["cbst"].items():
+                if st not in (0, -125) and not any(e == -st and e not in (4, 11, 105) and r in (str(q), "?" if h["sub"][q] == 0 else str(q))
+                                                  for r, e in h["oserr"]):
+                    self.bad("send-cb-status", f"h{i} r{q} status {st} is not the error the OS returned for that datagram "
+                                               f"(failed calls: {h['oserr'][-6:]})")
             for q in h["must"]:
                 if h["sub"][q] > 0 and q not in wired:
                     self.bad("reported-sent-not-on-wire", f"h{i} datagram {q} reported as sent (status 0 / return value) but never arrived")
@@ -600,6 +605,8 @@ def run_sim_case(ctx, sexe, c):
     mon = sim_monitor(c, il)
     if rc != 0 and not mon.fail:
         mon.bad("sim-crash", f"harness exited {rc}: {ierr[-700:]}")
+    elif mon.sig == "sim-crash":
+        mon.fail += f" | exit {rc}: " + " ".join(ierr[-400:].split())
     return il, mon
 
 
